@@ -99,6 +99,10 @@ def cases(rng, tier):
             if f == "getitem":
                 p["sel"] = ragidx.rowsel_random(n, rng)
                 p["variant"] = rng.randint(0, 1)
+                if rng.random() < 0.15:
+                    # selectors that select nothing (an all-False mask as a list / as an ndarray, an empty list, an empty slice):
+                    # the result is an empty table of the same fields, element types and widths
+                    p["sel"] = rng.choice([{"t": "mask", "bs": [False] * n}, {"t": "mask", "bs": [False] * n}, {"t": "list", "is": []}, {"t": "slice", "a": n, "b": None, "k": None}])
             if f == "astype":
                 names = [c["n"] for c in p["cols"]]
                 k = rng.randint(1, len(names))
@@ -203,6 +207,8 @@ def run_impl(p):
                 again = _table(r[:], names)
                 if it != _entries(r, names) or again != o or not bool(r == r[:]) or _entries(obj, names) != _entries(_obj(p["cols"]), names):
                     raise AssertionError("a selected table does not behave like a table holding its entries")
+            # the fields of the selection keep their element type and width, also when nothing is selected
+            o["field_types"] = canon([[str(np.asarray(getattr(r, n)).dtype), [int(x) for x in np.asarray(getattr(r, n)).shape[1:]]] for n in names])
             return o
         if f == "iter":
             # the entries are collected first and read afterwards (list(table), sorted(table, ...)): each is an entry of its own
@@ -298,7 +304,8 @@ def oracle(p):
             return refuse()
         if is_int:
             return canon(rows[0])
-        return {"k": "obs", "entries": canon([list(r) for r in rows]), "len": canon(len(rows)), "names": canon(names)}
+        return {"k": "obs", "entries": canon([list(r) for r in rows]), "len": canon(len(rows)), "names": canon(names),
+                "field_types": canon([["int64", [c["w"]] if c["w"] else []] for c in p["cols"]])}
     if f == "iter":
         return canon(ents)
     if f == "eq" and p.get("eqmode") in ("close_big", "close_tiny", "float_same") and len(ents) >= 1:
